@@ -13,7 +13,7 @@ from pokerkit import Card, Mode
 ID = 'C08'
 LEVEL = 'fault_enumeration'
 crash_is_violation = False
-QUICK_RUNS = 1600
+QUICK_RUNS = 1200
 THOROUGH_RUNS = 40000
 QUICK_BUDGET = 110
 THOROUGH_BUDGET = 1500
@@ -299,8 +299,16 @@ class Adversary:
             if gone:
                 raise Violation('C08.wrong_player', f'{name}{args}: players {gone} lost their turn to show', op=name)
         if name == 'deal_hole':
-            if len(fork.hole_cards[i]) != len(st.hole_cards[i]) + len(op.cards):
-                raise Violation('C08.wrong_player', f'{name}{args}: player {i} did not receive the cards', op=name)
+            if len(fork.operations) == len(st.operations) + 1:
+                if len(fork.hole_cards[i]) != len(st.hole_cards[i]) + len(op.cards):
+                    raise Violation('C08.wrong_player', f'{name}{args}: player {i} did not receive the cards', op=name)
+            else:
+                # an automation cascade followed the deal (it may have run the hand to its end and mucked the cards):
+                # the dealt cards must not sit in anybody else's hand
+                for j in range(fork.player_count):
+                    if j != i and any(c in fork.hole_cards[j] and c not in st.hole_cards[j] for c in op.cards
+                                      if not c.unknown_status):
+                        raise Violation('C08.wrong_player', f'{name}{args}: the cards ended up with player {j}', op=name)
         if name == 'select_runout_count' and same_phase:
             if fork.runout_count_selector_statuses[i]:
                 raise Violation('C08.wrong_player', f'{name}{args}: player {i} may still select afterwards', op=name)
